@@ -187,8 +187,16 @@ def systems_for(lammps, want, n_extras, atom_id, unit_extras=False):
 
 def snapshot(sysd):
     """independent numpy snapshot of the system: V, o, s (relative), pos (Cartesian), atype, props{name: array}"""
-    V = gens.cell_vects(sysd['cell'])
-    o = gens.cell_origin(sysd['cell'])
+    c = sysd['cell']
+    if 'V' in c:
+        V = np.array(c['V'], dtype=float)             # exactly structured cell (round 5), given explicitly
+    else:
+        V = gens.cell_vects(c)
+        if c.get('tiny') and not c.get('rot'):
+            # the cell a Box holds after its documented clean-up: components up to 1e-9 of the largest one are zero
+            V = V.copy()
+            V[np.abs(V) / np.abs(V).max() <= CLEAN_RUNG] = 0.0
+    o = gens.cell_origin(c)
     s = np.array(sysd['rel'], dtype=float).reshape(-1, 3)
     props = {}
     for p in sysd['props']:
@@ -201,9 +209,11 @@ def snapshot(sysd):
 
 def make_system(am, snap):
     """a fresh atomman System built from copies of the snapshot (the writer may wrap it in place)"""
-    prop = {'atype': snap['atype'].copy(), 'pos': snap['pos'].copy()}
+    st_ = snap.get('store') or {}
+    prop = {'atype': _formed(snap['atype'], *st_.get('atype', ('i8', 'copy'))),
+            'pos': _formed(snap['pos'], *st_.get('pos', ('f8', 'copy')))}
     for k, v in snap['props'].items():
-        prop[k] = v.copy()
+        prop[k] = _formed(v, *st_.get(k, ('f8', 'copy')))
     atoms = am.Atoms(prop=prop)
     box = am.Box(vects=snap['V'].copy(), origin=snap['o'].copy())
     return am.System(atoms=atoms, box=box, pbc=list(snap['pbc']),
@@ -499,3 +509,426 @@ def physical(raw, rescale=None):
     S['props'] = props
     S['raw'] = raw
     return S
+
+
+# ============================================================================= generator classes carried over (round 5)
+# Eight generator classes that caught seeded regressions in other properties (see the module docstring of checks/c08.py).  The
+# ones that change the SYSTEM are drawn as one fixed-size byte string (cheap; Hypothesis fills the tail of about half of its
+# examples with zero bytes, so an all-zero string decodes to "nothing", and the rates below are about twice the wanted shares)
+# and decoded by ``decode_x`` into a readable dict x:
+#   x['cell']  None | {'kind': 'tiny', 't': [[mode, exponent, sign] * 3]}   almost orthogonal: tilt / length = +-10**[-12,-3]
+#                   | {'kind': 'sym', 'form': .., 'p': .., 's': .., 'eq': .., 'centre': ..}   exactly structured cell
+#   x['near']  None | [[atom, axis, base, exponent, sign] ...]     atoms 10**[-12,-3] (box-relative) off a face / the centre
+#   x['vals']  None | {'mode': 'decades', 'k0': ..} | {'mode': 'near', 'e': .., 'k0': ..}   values of the float properties
+#   x['posdec'] bool   rows of relative coordinates scaled by 10**-k (table / dump file only)
+#   x['store'] None | [byte * 8]   storage dtype + memory layout of pos, atype and each property (see ``stored``)
+#   x['dt']    None | [byte * 6]   loader-side dtype entries of explicitly described columns (see ``dtype_token``)
+#   x['post']  [..]  what the caller does after the judged dump + load ('sin', 'sout', 'redump', 'other'; see checks/c08.py)
+# ``apply_x`` puts cell / near / vals / posdec into the system dict (so the case shows the final numbers); store, dt and post
+# are interpreted by the oracle.
+XLEN = 28
+CLEAN_RUNG = 1e-9
+SYM_FORMS_ANY = ('perm', 'perm', 'upper', 'lower', 'cyclic', 'perm')
+_NEAR_BASES = (0.0, 1.0, 0.5, 0.0, 1.0, -1.0, 2.0, 1.0)
+POST_OPS = ('sin', 'sout', 'redump', 'other')
+
+
+def decode_x(b):
+    b = list(b)
+    x = {'cell': None, 'near': None, 'vals': None, 'posdec': False, 'store': None, 'dt': None, 'post': []}
+    c = b[0]
+    if 1 <= c < 72:
+        t = []
+        for i in range(3):
+            v = b[1 + i]
+            t.append([(0, 1, 2, 2, 2)[v % 5], -12.0 + 9.0 * ((v * 37 + c) % 256) / 255.0, 1.0 if (v >> 3) & 1 else -1.0])
+        x['cell'] = {'kind': 'tiny', 't': t}
+    elif 72 <= c < 128:
+        x['cell'] = {'kind': 'sym', 'form': c % 6, 'p': b[1] % 6, 's': b[2] % 8, 'eq': b[3] % 4 == 1, 'centre': b[3] % 3 == 1,
+                     'half': b[3] % 8}
+    if 1 <= b[4] < 72:
+        x['near'] = [[b[5 + 2 * i], b[6 + 2 * i] % 3, _NEAR_BASES[(b[6 + 2 * i] >> 2) % 8],
+                      -12.0 + 9.0 * ((b[5 + 2 * i] * 53 + b[4]) % 256) / 255.0, 1.0 if b[6 + 2 * i] & 128 else -1.0]
+                     for i in range(1 + b[4] % 3)]
+    v = b[11]
+    if 1 <= v < 56:
+        x['vals'] = {'mode': 'decades', 'k0': b[12] % 17}
+    elif 56 <= v < 96:
+        x['vals'] = {'mode': 'near', 'e': -12.0 + 9.0 * b[12] / 255.0, 'k0': b[12] % 5}
+    x['posdec'] = 96 <= v < 128
+    if 1 <= b[13] < 112:
+        x['store'] = [int(q) for q in b[14:22]]
+    if 1 <= b[22] < 128:
+        x['dt'] = [int(q) for q in b[23:27]] + [int(b[22]), int(b[23] ^ 0x5a)]
+    p = b[27]
+    x['post'] = [op for k, op in enumerate(POST_OPS) if (p >> (2 * k)) & 3 == 1 or (p >> (2 * k)) & 3 == 2 and k != 3]
+    return x
+
+
+S_X = st.binary(min_size=XLEN, max_size=XLEN).map(decode_x)
+X_NONE = decode_x(bytes(XLEN))
+
+
+def _tiny_cell(c, t):
+    """tilt factors that are tiny but not zero: per factor (mode, exponent, sign); mode 0 keeps the cell's value, 1 sets zero,
+    2 sets sign * 10**exponent * length; at least one factor is made tiny; ratios within 10 % of the rung of Box's documented
+    clean-up (components up to 1e-9 of the largest are zeroed) are moved off it"""
+    c = dict(c)
+    t = [list(q) for q in t]
+    if not any(q[0] == 2 for q in t):
+        t[int(abs(t[0][1]) * 7) % 3][0] = 2
+    for key, lk, (mode, ex, sg) in zip(('xy', 'xz', 'yz'), ('lx', 'lx', 'ly'), t):
+        if mode == 1:
+            c[key] = 0.0
+        elif mode == 2:
+            c[key] = sg * 10.0 ** ex * c[lk]
+    vmax = max(abs(c[k]) for k in ('lx', 'ly', 'lz', 'xy', 'xz', 'yz'))
+    for key in ('xy', 'xz', 'yz'):
+        r = abs(c[key]) / vmax
+        if 0.9 * CLEAN_RUNG < r < 1.1 * CLEAN_RUNG:
+            c[key] = c[key] * 2.0
+    c['tiny'] = True
+    return c
+
+
+_PERMS3 = ((0, 1, 2), (1, 2, 0), (2, 0, 1), (0, 2, 1), (2, 1, 0), (1, 0, 2))
+
+
+def _sym_cell(c, sx, lammps):
+    """exactly structured cell from the lengths of `c`: LAMMPS formats keep the lower-triangular form with positive diagonal
+    and get tilts that are exact halves / negatives / sums that cancel; the other formats also get signed permutations of the
+    axes, upper-triangular cells with negative entries and cyclically relabelled triangular cells (all entries exact)"""
+    lx, ly, lz = (float(round(c[k] * 8) / 8) or 0.5 for k in ('lx', 'ly', 'lz'))     # multiples of 1/8
+    if sx['eq']:
+        ly = lz = lx
+    h = sx['half']
+    sg = [1.0 if (sx['s'] >> k) & 1 else -1.0 for k in range(3)]
+    # tilts: exact halves of the lengths with signs; h picks which vanish / cancel (xy + xz == 0 exactly for h == 1)
+    xy, xz, yz = sg[0] * lx / 2, sg[1] * lx / 2, sg[2] * ly / 2
+    if h == 1:
+        xz = -xy
+    elif h == 2:
+        xz = 0.0
+    elif h == 3:
+        xy = 0.0
+    elif h == 4:
+        yz = 0.0
+    elif h == 5:
+        xy = sg[0] * lx                      # a tilt of a whole box length
+    elif h == 6:
+        xy = xz = yz = 0.0
+    L = np.array([[lx, 0.0, 0.0], [xy, ly, 0.0], [xz, yz, lz]])
+    form = 'lower' if lammps else SYM_FORMS_ANY[sx['form']]
+    if form == 'lower':
+        V = L
+    elif form == 'upper':
+        V = L.T * np.array(sg)[:, None]                      # upper triangular, vectors reversed by the signs
+    elif form == 'cyclic':
+        p = _PERMS3[sx['p'] % 3]
+        V = L[list(p)][:, list(p)]                           # the same cell with the axes AND the vectors relabelled cyclically
+    else:
+        p = _PERMS3[sx['p']]
+        V = (np.diag([lx, ly, lz])[list(p)] if h % 2 else L[:, list(p)]) * np.array(sg)[:, None]
+    V = V + 0.0
+    o = np.array(c['origin'], dtype=float)
+    if sx['centre']:
+        o = -(V.sum(axis=0)) / 2                              # cell centred on the Cartesian origin (exact halves)
+    c2 = {'lx': lx, 'ly': ly, 'lz': lz, 'xy': float(L[1, 0]), 'xz': float(L[2, 0]), 'yz': float(L[2, 1]),
+          'origin': [float(q) for q in o], 'rot': None, 'lefthanded': False, 'V': V.tolist(), 'sym': form}
+    return c2
+
+
+def apply_x(sysd, x, lammps, posdec_ok=False):
+    """the system dict with the cell / near-face / value classes of x put in (a new dict; nothing else is touched)"""
+    if x['cell'] is None and x['near'] is None and x['vals'] is None and not (x['posdec'] and posdec_ok):
+        return sysd
+    sysd = dict(sysd)
+    cx = x['cell']
+    if cx is not None:
+        if cx['kind'] == 'tiny':
+            sysd['cell'] = _tiny_cell(sysd['cell'], cx['t'])
+        else:
+            sysd['cell'] = _sym_cell(sysd['cell'], cx, lammps)
+    n = len(sysd['rel'])
+    rel = [list(r) for r in sysd['rel']]
+    if x['posdec'] and posdec_ok:
+        # rows of relative coordinates over many decades (judged per element with the exponent formats)
+        for i in range(n):
+            k = (3 * i + 1) % 9
+            rel[i] = [float('%.4e' % (q * 10.0 ** -k)) for q in rel[i]]
+        sysd['posdec'] = True
+    if x['near'] is not None:
+        for a, ax, base, ex, sg in x['near']:
+            rel[a % n][ax] = base + sg * 10.0 ** ex
+        sysd['near'] = True
+    sysd['rel'] = rel
+    vx = x['vals']
+    if vx is not None:
+        props = []
+        j = 0
+        for p in sysd['props']:
+            if p['dtype'] != 'f':
+                props.append(p)
+                continue
+            a = np.array(p['values'], dtype=float)
+            flat = a.reshape(-1).copy()
+            positive = p['q'] in ('mass', 'density', 'volume', 'length')
+            if vx['mode'] == 'decades':
+                for i in range(len(flat)):
+                    m = abs(flat[i]) or 1.0
+                    m = m / 10.0 ** np.floor(np.log10(m))
+                    k = (vx['k0'] + 5 * (i + j)) % 17 - 8
+                    flat[i] = float('%.4e' % ((1.0 if positive or flat[i] >= 0 else -1.0) * m * 10.0 ** k))
+            else:
+                for i in range(len(flat)):
+                    w = (i + j + vx['k0']) % 5
+                    d = 10.0 ** (vx['e'] + ((i * 7) % 5) * 0.37)
+                    if w == 0:
+                        flat[i] = (round(flat[i]) or 1.0) + (d if positive or i % 2 else -d)      # almost an integer
+                    elif w == 1:
+                        flat[i] = d if positive or i % 2 else -d                                   # almost zero
+                    elif w == 2:
+                        flat[i] = float(round(flat[i])) or (1.0 if positive else 0.0)              # integer-valued float
+            j += len(flat)
+            props.append(dict(p, values=flat.reshape(a.shape).tolist()))
+        sysd['props'] = props
+        sysd['vals'] = vx['mode']
+    return sysd
+
+
+def x_labels(sysd):
+    labs = set()
+    c = sysd['cell']
+    if c.get('tiny'):
+        labs.add('tiny_tilt')
+        vmax = max(abs(c[k]) for k in ('lx', 'ly', 'lz', 'xy', 'xz', 'yz'))
+        r = [abs(c[k]) / vmax for k in ('xy', 'xz', 'yz') if c[k]]
+        r = [q for q in r if q < 2e-3]
+        if any(q <= CLEAN_RUNG for q in r):
+            labs.add('tiny_cleaned')
+        if any(CLEAN_RUNG < q <= 1e-6 for q in r):
+            labs.add('tiny_1e-9_1e-6')
+        if any(q > 1e-6 for q in r):
+            labs.add('tiny_1e-6_1e-3')
+    if c.get('sym'):
+        labs.add('sym')
+        labs.add('sym_' + c['sym'])
+    if sysd.get('near'):
+        labs.add('near_face')
+    if sysd.get('posdec'):
+        labs.add('pos_decades')
+    if sysd.get('vals'):
+        labs.add('vals_' + sysd['vals'])
+    return labs
+
+
+def cell_labels(c):
+    """gens.cell_labels for the cell dicts of this module (an explicit 'V' wins)"""
+    if 'V' not in c:
+        return gens.cell_labels(c)
+    V = np.array(c['V'], dtype=float)
+    labs = set()
+    if (V != np.diag(np.diag(V))).any() and np.count_nonzero(V) > 3:
+        labs.add('tilted')
+    if (np.triu(V, 1) != 0).any() or (np.diag(V) <= 0).any():
+        labs.add('rotated')                  # not in the LAMMPS orientation
+    if any(c['origin']):
+        labs.add('origin')
+    if np.linalg.det(V) < 0:
+        labs.add('lefthanded')
+    return labs
+
+
+# ----------------------------------------------------------------------------- storage dtypes and memory layouts
+_ST_POS = ('f8', 'f8', 'f4', '>f8', 'f8', 'f4')
+_ST_ATYPE = ('i8', 'i1', 'u1', 'i2', '>i4', 'u8', 'i4', 'u2')
+_ST_FLOAT = ('f8', 'f4', 'f2', '>f8', '>f4', 'f4', 'f2', 'f8')
+_ST_INT = ('i8', 'i1', 'i2', 'u1', 'u2', '>i4', 'i4', '?', '>i2', 'u4', 'i1', 'u1')
+_LAYOUTS = ('copy', 'list', 'F', 'strided', 'readonly', 'copy', 'tuple', 'strided')
+BOOL_OK = ('flag', 'pair', 'n1', 'p21')
+
+
+def _fits(a, dt):
+    """is every value of the float64 / int64 array `a` exactly representable in dtype dt?"""
+    with np.errstate(all='ignore'):
+        b = a.astype(dt)
+        return bool(np.all(np.isfinite(b.astype(float))) and np.array_equal(b.astype(a.dtype), a))
+
+
+def stored(S, store, narrow_float=True, limits=True, readonly=True):
+    """the snapshot as it is STORED in the system: per array a storage dtype and a memory layout (S['store'] = {name: [dtype,
+    layout]}, used by make_system).  Float arrays given a narrow dtype are rounded to it first (the rounded numbers ARE the
+    system: exactly representable values by construction; float16 only inside its normal range); integer arrays get the
+    narrowest offered dtype that holds them and, for `limits`, the dtype's extreme values in their first / last entry."""
+    if store is None:
+        return S
+    S = dict(S)
+    S['props'] = dict(S['props'])
+    st_ = {}
+    changed = False
+    n = len(S['pos'])
+
+    def layout(b, rank2):
+        lay = _LAYOUTS[(b >> 4) % 8]
+        if lay == 'readonly' and not readonly:
+            lay = 'copy'
+        if lay == 'F' and not rank2:
+            lay = 'copy'
+        return lay
+
+    def narrow(a, dt):
+        with np.errstate(all='ignore'):
+            r = a.astype(dt).astype(float)
+        nz = r[a != 0]
+        tiny = np.finfo(np.dtype(dt).newbyteorder('=')).tiny
+        if not np.all(np.isfinite(r)) or (nz.size and np.abs(nz).min() < tiny) or np.any((r == 0) != (a == 0)):
+            return None
+        return r
+
+    b = store[0]
+    dt = _ST_POS[b % len(_ST_POS)]
+    if dt == 'f4' and narrow_float:
+        r = narrow(S['pos'], 'f4')
+        if r is not None:
+            S['pos'] = r
+            S['s'] = (r - S['o']) @ np.linalg.inv(S['V'])
+            changed = True
+        else:
+            dt = 'f8'
+    elif dt == 'f4':
+        dt = 'f8'
+    st_['pos'] = [dt, layout(b, True)]
+    b = store[1]
+    dt = _ST_ATYPE[b % len(_ST_ATYPE)]
+    st_['atype'] = [dt, layout(b, False)]
+    for j, (k, v) in enumerate(S['props'].items()):
+        b = store[2 + j % 6]
+        meta = S['meta'][k]
+        if meta['dtype'] == 'f':
+            dt = _ST_FLOAT[b % len(_ST_FLOAT)]
+            if dt[-2:] in ('f4', 'f2'):
+                r = narrow(v, dt) if narrow_float else None
+                if r is None and dt[-2:] == 'f2' and narrow_float:
+                    dt = 'f4'
+                    r = narrow(v, dt)
+                if r is None:
+                    dt = 'f8'
+                else:
+                    S['props'][k] = v = r
+                    changed = True
+        else:
+            dt = _ST_INT[b % len(_ST_INT)]
+            if dt == '?' and k not in BOOL_OK:
+                dt = 'i1'
+            if dt == '?':
+                S['props'][k] = v = v % 2
+                changed = True
+            else:
+                info = np.iinfo(np.dtype(dt))
+                if limits and (b >> 7) and n >= 2 and k != 'atom_id':
+                    v = v.copy()
+                    v.reshape(n, -1)[0, 0] = info.max
+                    v.reshape(n, -1)[-1, -1] = info.min
+                    S['props'][k] = v
+                    changed = True
+                elif limits and (b >> 7) and k == 'atom_id' and info.max > v.max():
+                    v = v.copy()
+                    v[int(np.argmax(v))] = info.max
+                    S['props'][k] = v
+                    changed = True
+                if v.min() < info.min or v.max() > info.max:
+                    dt = 'i8'
+        st_[k] = [dt, layout(b, v.ndim >= 2)]
+    S['store'] = st_
+    S['restored'] = changed           # the stored numbers are no longer the raw numbers times the unit factors (see rescaled)
+    return S
+
+
+def rescaled(S, f0, f1, rescale=None):
+    """the snapshot S, expressed under the working units with factors f0 (unit_factors()), as the same physical system under
+    the working units with factors f1 (used instead of physical(raw) when the stored numbers were rounded to a storage dtype)"""
+    rL = f1['length'] / f0['length']
+    S2 = dict(S)
+    S2['V'], S2['o'], S2['pos'] = S['V'] * rL, S['o'] * rL, S['pos'] * rL
+    props = {}
+    for k, v in S['props'].items():
+        m = S['meta'][k]
+        if m['dtype'] == 'f' and m['q'] is not None:
+            v = v * (f1[m['q']] / f0[m['q']])
+        elif m['dtype'] == 'f' and rescale and k in rescale:
+            v = v * rescale[k]
+        props[k] = v
+    S2['props'] = props
+    return S2
+
+
+def _formed(a, dt, lay):
+    """the array `a` (float64 / int64) in storage dtype dt and memory layout lay; falls back to the plain array when a value
+    is not exactly representable (nothing is ever rounded here)"""
+    if dt not in ('f8', 'i8') and _fits(a, dt):
+        a = a.astype(dt)
+    else:
+        a = a.copy()
+    if lay == 'list':
+        return a.tolist()
+    if lay == 'tuple':
+        return tuple(a.tolist())
+    if lay == 'F' and a.ndim >= 2:
+        return np.asfortranarray(a)
+    if lay == 'strided':
+        big = np.zeros((a.shape[0],) + tuple(2 * d for d in a.shape[1:]) if a.ndim >= 2 else (2 * a.shape[0],), dtype=a.dtype)
+        view = big[(slice(None),) + tuple(slice(None, None, 2) for _ in a.shape[1:])] if a.ndim >= 2 else big[::2]
+        view[...] = a
+        return view
+    if lay == 'readonly':
+        a.setflags(write=False)
+    return a
+
+
+def store_labels(S):
+    labs = set()
+    st_ = S.get('store')
+    if not st_:
+        return labs
+    labs.add('store')
+    for k, (dt, lay) in st_.items():
+        if dt[-2:] in ('f4', 'f2'):
+            labs.add('store_narrow_float')
+            if k == 'pos':
+                labs.add('store_pos_f4')
+        elif dt == '?':
+            labs.add('store_bool')
+        elif dt[0] == '>':
+            labs.add('store_bigendian')
+        elif dt[0] == 'u':
+            labs.add('store_unsigned')
+        elif dt in ('i1', 'i2', 'i4'):
+            labs.add('store_narrow_int')
+        if lay in ('F', 'strided'):
+            labs.add('store_strided')
+        elif lay == 'readonly':
+            labs.add('store_readonly')
+        elif lay in ('list', 'tuple'):
+            labs.add('store_list')
+    return labs
+
+
+# loader-side dtype entries of explicitly described columns: how the docstrings let a data type be "explicitly given"
+_DT_FLOAT = (None, 'float32', 'float64', '<f8', 'py:float', 'np:float32', 'f4', 'np:float64')
+_DT_INT = (None, 'int32', 'int16', 'int64', 'py:int', 'np:int32', '<i8', 'uint16', 'int8', 'np:int64')
+
+
+def dtype_token(byte, kind, lo, hi):
+    """(what is handed to atomman, the numpy dtype it means) for one column; None = keep the entry the case already has"""
+    name = (_DT_FLOAT if kind == 'f' else _DT_INT)[byte % (len(_DT_FLOAT) if kind == 'f' else len(_DT_INT))]
+    if name is None:
+        return None
+    if name.startswith('py:'):
+        t = float if name == 'py:float' else int
+        return t, np.dtype(t)
+    dt = np.dtype(name[3:] if name.startswith('np:') else name)
+    if dt.kind in 'iu':
+        info = np.iinfo(dt)
+        if lo < info.min or hi > info.max:
+            return None
+    return (dt if name.startswith('np:') else name), dt
